@@ -323,9 +323,10 @@ _DTI = re.compile(r"\b(\w+)\.dtype\.type|dtype_index_(\w+)")
 
 
 def classify_diff(a, b):
-    if "_np_dtypes.index(" in a:
-        na, nb = _DTI.sub("<dtype-arg>", a), _DTI.sub("<dtype-arg>", b)
-        if na == nb:
+    if "_np_dtypes.index(" in a or "_np_dtypes.index(" in b:
+        ia = sorted(set(re.findall(r"_np_dtypes\.index\((\w+)\.dtype\.type\)", a)))
+        ib = sorted(set(re.findall(r"_np_dtypes\.index\((\w+)\.dtype\.type\)", b)))
+        if ia != ib or _DTI.sub("<dtype-arg>", a) == _DTI.sub("<dtype-arg>", b):
             return "dtype-index-argument"
     ta = re.findall(r"[A-Za-z_][A-Za-z_0-9]*|\S", a)
     tb = re.findall(r"[A-Za-z_][A-Za-z_0-9]*|\S", b)
